@@ -475,7 +475,7 @@ pub fn run(tier: &str, seed: u64) -> i32 {
         "C14",
         &states,
         200,
-        Duration::from_secs(if thorough { 1500 } else { 50 }),
+        Duration::from_secs(if thorough { 1500 } else { 150 }),
         Duration::from_secs(10),
         "C14",
     );
